@@ -89,15 +89,23 @@ def compute_helper_escapes(repo: Repo) -> None:
             rets = [n for n in own_nodes(fn.node) if isinstance(n, ast.Return) and n.value is not None]
             HL = Locals(fn.node)
             rvs = [HL.inline(r.value, stop=tuple(HL.params)) for r in rets]
-            if not rets or not all(any(isinstance(x, ast.Call) and isinstance(x.func, ast.Attribute) and x.func.attr == "replace" for x in ast.walk(rv))
-                                   and any(isinstance(x, ast.Name) and x.id == fn.params[0] for x in ast.walk(rv)) for rv in rvs):
-                continue
             ft = FnTaint(fn)
+            direct = bool(rets) and all(any(isinstance(x, ast.Call) and isinstance(x.func, ast.Attribute) and x.func.attr == "replace" for x in ast.walk(rv))
+                                        and any(isinstance(x, ast.Name) and x.id == fn.params[0] for x in ast.walk(rv)) for rv in rvs)
+            # ... or the escaped text is kept in a local that gets a further step before it is returned (`escaped = text.replace(...)...; if ...: escaped = ...; return escaped`)
+            via_local = bool(rets) and all(isinstance(r.value, ast.Name) and any(
+                any(isinstance(x, ast.Call) and isinstance(x.func, ast.Attribute) and x.func.attr == "replace" for x in ast.walk(d)) and any(
+                    isinstance(x, ast.Name) and x.id == fn.params[0] for x in ast.walk(d)) for d in ft.prov.defs.get(r.value.id, [])) for r in rets)
+            if not (direct or via_local):
+                continue
             esc: Optional[Set[str]] = None
             for r in rets:
                 got = ft.escapes(r.value)
                 esc = got if esc is None else (esc & got)
             if esc:
+                # a final double quote is dealt with: the helper looks at the end of the escaped text (`<x>.endswith('"')`) and rewrites it
+                if any(isinstance(c, ast.Call) and isinstance(c.func, ast.Attribute) and c.func.attr == "endswith" and c.args and const_str(c.args[0]) == '"' for c in ast.walk(fn.node)):
+                    esc = esc | {"final-quote"}
                 HELPER_ESCAPES[fn.name] = esc
 
 
@@ -393,6 +401,17 @@ class FnTaint:
             out += self.origins(k.value, ctx, depth, seen)
         return out
 
+    def _mentions(self, e: ast.AST, name: str, depth: int = 0) -> bool:
+        for x in ast.walk(e):
+            if isinstance(x, ast.Name):
+                if x.id == name:
+                    return True
+                if depth < 2:
+                    ds = self.prov.defs.get(x.id, [])
+                    if len(ds) == 1 and self._mentions(ds[0], name, depth + 1):
+                        return True
+        return False
+
     # ------------------------------------------------------------------ escapes applied on the way to a hole
     def escapes(self, e: ast.AST, depth: int = 0, seen: Optional[Set[str]] = None) -> Set[str]:
         """Which escaping operations does the value of e certainly pass through? Along one expression the escapes
@@ -423,8 +442,8 @@ class FnTaint:
                         if isinstance(d, ast.Constant) or (isinstance(d, (ast.List, ast.Dict)) and not ast.dump(d).count("Name")):
                             continue  # constant initialisers carry no spec text
                         got = self.escapes(d, depth + 1, seen | {n.id})
-                        if any(isinstance(x, ast.Name) and x.id == n.id for x in ast.walk(d)):
-                            chained |= got  # `x = x.replace(...)`: a further step on the same value, not an alternative
+                        if self._mentions(d, n.id):
+                            chained |= got  # `x = x.replace(...)` (also through a local: `body = x[:-1]; x = body + ...`): a further step on the same value, not an alternative
                         else:
                             common = got if common is None else (common & got)
                     out |= (common or set()) | chained
@@ -627,6 +646,12 @@ def run(repo: Repo, rep: Report, tier: str) -> None:
                     sub = f"{mod.relpath}:{fn.qualname} hole `{norm(h)[:40]}` in {st.kind} of `{t.text.replace(HOLE, '{}').strip()[:50]}`"
                     ok, why = _sanitized_for(st, esc, h)
                     if ok and st.kind == DOCSTRING:
+                        # the hole ends directly at the closing delimiter (`"""Alias for {text}"""`): a final `"` of the text merges with it
+                        after = t.text.split(HOLE)[[i_ for i_, (h_, _, ix_) in enumerate(holes) if ix_ == idx][0] + 1] if t.text.count(HOLE) == len(holes) else ""
+                        if after.startswith('"""') and "final-quote" not in esc:
+                            ok, why = False, ("the text ends directly at the closing `\"\"\"`: a description that ends with a double quote (`e.g. \"urgent\"`) makes four quotes "
+                                              "in a row - the literal ends one character early and the file does not parse; the last quote has to be escaped as well")
+                    if ok and st.kind == DOCSTRING:
                         cut = _trim_after_escape(fn, h)
                         if cut is not None:
                             ok, why = False, (f"characters are removed after the escaping (`{norm(cut)[:50]}`): an escape sequence can be cut in half "
@@ -783,6 +808,19 @@ def run(repo: Repo, rep: Report, tier: str) -> None:
                         code_src = "the result of get_code()"
                     elif in_code_writer and fn.name != "write_block":
                         code_src = "text handled by the code writer"
+                    elif in_code_writer and fn.name == "write_block":
+                        # write_block is handed whatever its callers pass: finished method / class code among it
+                        for mn2 in mods:
+                            for f2 in repo.modules[mn2].functions.values():
+                                for c2 in calls_in(f2.node):
+                                    if isinstance(c2.func, ast.Attribute) and c2.func.attr == "write_block" and c2.args:
+                                        a2 = c2.args[0]
+                                        L2 = Locals(f2.node)
+                                        src2 = L2.inline(a2, stop=tuple(L2.params))
+                                        made = any(isinstance(x, ast.Call) and isinstance(x.func, ast.Attribute) and x.func.attr in ("generate", "get_code", "visit", "render") for x in ast.walk(src2))
+                                        named = any(isinstance(x, ast.Name) and "code" in x.id.lower() for x in ast.walk(a2))
+                                        if (made or named) and code_src is None:
+                                            code_src = f"finished code handed to write_block by {f2.qualname}"
                     elif any(l in ("render_dataclass", "render_enum", "render_alias", "render_class", "generate", "visit") for l in last):
                         code_src = f"generated code returned by {[l for l in last if l in ('render_dataclass', 'render_enum', 'render_alias', 'render_class', 'generate', 'visit')][0]}()"
                     elif any(l == "getvalue" for l in last) and not mn.endswith("documentation_writer"):
